@@ -49,8 +49,10 @@ def classify_io(t):
         return 'bincode_serialize'
     if tr == 'bincode::Options' and m in ('deserialize_from', 'deserialize'):
         return 'bincode_deserialize'
-    if cn.startswith('bincode::') and m in ('serialize', 'serialize_into', 'deserialize', 'deserialize_from'):
-        return 'bincode_free_' + m
+    if cn.startswith('bincode::') and not tr and m in ('serialize', 'serialize_into'):
+        return 'bincode_serialize'      # bincode 1.x free functions: fixint, little-endian (same wire format as the configured options)
+    if cn.startswith('bincode::') and not tr and m in ('deserialize', 'deserialize_from'):
+        return 'bincode_deserialize'
     if cn == 'bincode::serialized_size' or (tr == 'bincode::Options' and m == 'serialized_size'):
         return 'serialized_size'
     if tr == 'std::io::Seek' and m == 'seek':
@@ -278,6 +280,13 @@ def run(prog, rep, tier):
                     n_le += 1 if ok else 0
                     if not ok:
                         rep.ob('R06.4', False, 'R06.4|%s|%s|endianness' % (body.nkey, t.cmethod), 'byteorder call %s is not LittleEndian' % t.cargs, body.loc(b.idx))
+            elif k in ('bincode_serialize', 'bincode_deserialize') and not t.ctrait:
+                # free function of bincode 1.x = DefaultOptions + fixint + little endian: format-equivalent (the missing size limit is C08's concern)
+                if k == 'bincode_serialize':
+                    n_ser += 1
+                else:
+                    n_de += 1
+                rep.note('bincode free function %s in %s: wire format identical to the configured options' % (t.cmethod, body.nkey))
             elif k in ('bincode_serialize', 'bincode_deserialize'):
                 opts = t.callee.get('self_ty', '')
                 ok = 'bincode::config::FixintEncoding' in opts and 'bincode::config::Bounded' in opts and 'BigEndian' not in opts and 'NativeEndian' not in opts and 'AllowTrailing' not in opts
@@ -293,8 +302,6 @@ def run(prog, rep, tier):
                     okl = any((c.get('def') or '').endswith('BINCODE_MAX_DESERIALIZE') for c in o.consts)
                     if not okl:
                         rep.ob('R06.4', False, 'R06.4|%s|%s|bincode-limit' % (body.nkey, t.cmethod), 'bincode limit is not BINCODE_MAX_DESERIALIZE', body.loc(b.idx))
-            elif k.startswith('bincode_free_'):
-                rep.ob('R06.4', False, 'R06.4|%s|%s|bincode-free-fn' % (body.nkey, t.cmethod), 'bincode free function %s bypasses the configured Options' % t.cargs, body.loc(b.idx))
             elif k == 'serialized_size':
                 n_sz += 1
     fl = T['floors']
